@@ -85,7 +85,8 @@ class Sim:
         if k == "bind":
             a = ("bind_simple", "cn=" + mk, "pw", None) if r.random() < 0.5 else ("bind_sasl", "GSSAPI", "cn=" + mk, mk.encode(), None)
         elif k == "search":
-            a = ("search", "dc=" + mk, 2, 0, 0, 0, False, gv.g_filter(r, gv.SMALL) if r.random() < 0.4 else None, ("cn",), None)
+            a = ("search", "dc=" + mk, r.choice([0, 1, 2]), r.choice([0, 1, 2, 3]), r.choice([0, 10]), r.choice([0, 30]), r.random() < 0.3,
+                 gv.g_filter(r, gv.SMALL) if r.random() < 0.4 else None, ("cn",), None)
         else:
             a = ("extended", "1.2.3", mk.encode(), None)
         return self.api("c", a)
